@@ -329,6 +329,22 @@ def family_H(seed: int, count: int, *, density=0.35) -> List[Spec]:
         cfg = tree_to_config(root)
         add_complete_transitions(root, cfg, rng=rng, density=density)
         out.append(Spec(cfg, "H", f"H-{seed}-{i}"))
+    # one machine whose parallel regions use the SAME local keys (idle / busy): only the full id tells their
+    # leaves apart, which is what every ordering rule has to go by
+    root = Node("m", "compound")
+    root.add(Node("o", "atomic"))
+    p = root.add(Node("p", "parallel"))
+    for j in range(3):
+        r = p.add(Node(f"r{j + 1}", "compound"))
+        r.add(Node("idle", "atomic"))
+        r.add(Node("busy", "atomic"))
+        r.initial = "idle"
+    h = p.add(Node("hd", "history"))
+    h.hkind = "deep"
+    root.initial = "o"
+    cfg = tree_to_config(root)
+    add_complete_transitions(root, cfg, rng=rng, density=max(density, 0.5))
+    out.append(Spec(cfg, "H", f"H-{seed}-samekeys"))
     return out
 
 
